@@ -367,3 +367,19 @@ Example monitor_rejects_bad_accepts :
   monitor_case [3; 1; 1; 1; 0; 0; -10; 5;   0;  1;  1; 18; 1;  0] <> [] /\
   monitor_case [3; 1; 1; 1; 0; 0; -10; 5;   2; 18; 1; 18; 9;  1;  3; 18; 1; 18; 1; 18; 2;  0] <> [].
 Proof. vm_compute. repeat split; discriminate. Qed.
+
+(* transport lifecycle tokens (operations on the listener's transport between two
+   observations: failed Listens, listener Close, another Listen) are not events:
+   the decoder drops them, so a history with them is judged exactly as the same
+   observations without them *)
+Example lifecycle_tokens_are_dropped : forall f code dt r,
+  decode_events (S f) (5 :: code :: dt :: r) = decode_events f r.
+Proof. reflexivity. Qed.
+
+(* ... and the monitor rejects the recorded history of a real transport whose
+   manager stopped rolling after a Listen that failed on a busy UDP port (the
+   listener opened afterwards still serves the first certificate one and two
+   periods later): clause 1 at the third observation *)
+Example monitor_rejects_frozen_listener_after_failed_listen :
+  monitor_case [5; 17; 127; 119783340000000000; 5; 1; 0; 0; 119783340000000000; 0; 0; 0; 0; 119779740000000000; 120989340000000000; 1; 1; 120982140000000000; 122191740000000000; 2; 119779740000000000; 120989340000000000; 1; 2; 18; 1; 18; 2; 2; 18; 1; 18; 2; 5; 5; 1202399999000000; 1; 1202399999000000; 120985739999000000; 0; 0; 0; 0; 119779740000000000; 120989340000000000; 1; 1; 120982140000000000; 122191740000000000; 2; 119779740000000000; 120989340000000000; 1; 2; 18; 1; 18; 2; 2; 18; 1; 18; 2; 1; 1202400000000000; 122188139999000000; 0; 0; 0; 0; 119779740000000000; 120989340000000000; 1; 1; 120982140000000000; 122191740000000000; 2; 119779740000000000; 120989340000000000; 1; 2; 18; 1; 18; 2; 2; 18; 1; 18; 2] <> [].
+Proof. vm_compute. discriminate. Qed.
